@@ -81,6 +81,18 @@ static void on_terminated(void *tp) {
     o->cb_returned++;
 }
 
+// persistent free-running threads for the stress mode (thread creation per taskpool would dominate)
+struct ParPool {
+    std::vector<std::thread> th; pthread_barrier_t b1, b2; const std::vector<std::function<void()>> *bodies = nullptr; bool stop = false; int n;
+    explicit ParPool(int n_) : n(n_) {
+        pthread_barrier_init(&b1, nullptr, (unsigned)n + 1); pthread_barrier_init(&b2, nullptr, (unsigned)n + 1);
+        for (int i = 0; i < n; i++) th.emplace_back([this, i]() { for (;;) { pthread_barrier_wait(&b1); if (stop) return; if ((size_t)i < bodies->size()) (*bodies)[(size_t)i](); pthread_barrier_wait(&b2); } });
+    }
+    void run(const std::vector<std::function<void()>> &b) { bodies = &b; pthread_barrier_wait(&b1); pthread_barrier_wait(&b2); }
+    ~ParPool() { stop = true; pthread_barrier_wait(&b1); for (auto &t : th) t.join(); }
+};
+static ParPool *g_pool = nullptr;
+
 struct RunInfo { bool nontrivial = false, close_race = false, window = false, released_hook = false; int zero_cross_after_ready = 0; int cb_thread = -2; uint64_t steps = 0; };
 
 static std::string probe(Obs &o, const char *who) {
@@ -145,7 +157,7 @@ static std::string run_case(const Case &c, dsched::Chooser *ch, RunInfo *ri) {
         for (int i = 0; i < c.probes_after; i++) { std::string e = probe(obs, "main"); if (!e.empty() && terr[W].empty()) terr[W] = e; }
     });
     if (ch) { dsched::Outcome out = dsched::run(bodies, *ch, 100000); ri->steps = out.steps; }
-    else { std::vector<std::thread> th; for (auto &b : bodies) th.emplace_back(b); for (auto &t : th) t.join(); }
+    else g_pool->run(bodies);
     // ---- verdict
     for (auto &e : terr) if (!e.empty() && err.empty()) err = e;
     int cbn = obs.cb_count.load();
@@ -246,6 +258,7 @@ static int do_stress(int W, long iters, unsigned seed) {
     uint64_t x = seed * 7919u + 12345;
     auto next = [&]() { x = x * 6364136223846793005ULL + 1442695040888963407ULL; return (int)(x >> 35); };
     long windows = 0;
+    ParPool pool(W + 1); g_pool = &pool;
     for (long it = 0; it < iters; it++) {
         Case c; c.prog.resize(W); c.init_tasks.resize(W);
         c.owner = (next() % 5 == 0) ? next() % W : -1; c.dtd_reset = next() % 2; c.probes_before = next() % 2; c.probes_after = next() % 3;
@@ -254,9 +267,10 @@ static int do_stress(int W, long iters, unsigned seed) {
         if (ri.released_hook) windows++;
         if (!e.empty()) {
             std::string repr = "C10-stress workers " + std::to_string(W) + " iters " + std::to_string(iters) + " seed " + std::to_string(seed) + "\n# failing iteration " + std::to_string(it) + ":\n# " + c.repr();
-            vf::record_failure(repr, e); vf::dump(); return 1;
+            vf::record_failure(repr, e); vf::dump(); g_pool = nullptr; return 1;
         }
     }
+    g_pool = nullptr;
     std::string repr = "C10-stress workers " + std::to_string(W) + " iters " + std::to_string(iters) + " seed " + std::to_string(seed) + "\n";
     vf::note_case(repr, W >= 2);
     vf::R().evaluations += iters - 1;
